@@ -360,7 +360,6 @@ package iscp
 
 //@ func (DataPointGroups).toUpstreamDataPointGroups
 //@   props C01
-//@   requires forall(i, int, imp(0 <= i && i < len(dpgs), dpgs[i] != nil && dpgs[i].DataID != nil))
 //@   modifies nothing
 //@   ensures len(result0) == len(dpgs)
 //@   ensures forall(i, int, imp(0 <= i && i < len(dpgs), result0[i] != nil && labelOK(result0[i], dpgs[i], revAliases)))
@@ -440,3 +439,51 @@ package iscp
 //@   loop 2 invariant fresh(res) && res.DataPointsBuffer != nil && fresh(res.DataPointsBuffer) && len(res.DataPointsBuffer) == visitedcount() && res.TotalDataPoints == u.totalDataPoints && res.LastIssuedSequenceNumber == u.sequence.Current
 //@   loop 2 invariant u.sendBuffer == old(u.sendBuffer) && u.sequence == old(u.sequence) && unchanged(u.totalDataPoints) && unchanged(u.sequence.Current)
 //@   loop 2 invariant forall(i, int, imp(0 <= i && i < len(res.DataPointsBuffer), res.DataPointsBuffer[i] != nil && res.DataPointsBuffer[i].DataID != nil && has(u.sendBuffer, *res.DataPointsBuffer[i].DataID) && len(res.DataPointsBuffer[i].DataPoints) == len(u.sendBuffer[*res.DataPointsBuffer[i].DataID])))
+
+// ---------------------------------------------------------------- C02: retransmission source and resume
+// (storage faithfulness - List returns exactly what Store kept, per stream - is proved under C07
+//  for the payload-preserving store, which is the default one)
+
+//@ func ConnectWithConfig
+//@   props C02
+//@   assert call connectWire: c.sentStorage != nil && imp(old(c.sentStorage) == nil, typeis(c.sentStorage, *inmemSentStorage) && unbox(c.sentStorage, *inmemSentStorage) != nil)   // default store keeps payloads
+
+// a nil result (= ack timeout, after which the chunk is forgotten) is produced only after
+// the timeout fired AND the surrounding context was then seen not to be cancelled
+//@ func (*Upstream).withAckTimeoutCh$1
+//@   props C02
+//@   ghostvar live bool = false
+//@   ghostvar relayed bool = false
+//@   after call Context).Err: live = (res0 == nil)
+//@   after recv inCh: relayed = true
+//@   assert send: imp(v == nil, live || relayed)
+
+// the sent store forgets a chunk only after a result (ack or ack timeout) for exactly that chunk
+//@ func (*Upstream).sendChunkAndWaitAck
+//@   props C02
+//@   requires msgChunk != nil && msgChunk.StreamChunk != nil
+//@   ghostvar got bool = false
+//@   after recv withAckTimeoutCh: got = true
+//@   assert call sentStorage).Remove: got && arg1 == u.ID && arg2 == msgChunk.StreamChunk.SequenceNumber
+
+// resend after a reliable resume: every listed chunk is sent again, under the sequence number it
+// was stored with, its result channel registered under that number
+//@ func (*Upstream).run$4
+//@   props C02
+//@   ghostvar owed bool = false
+//@   ghostvar seq uint32 = 0
+//@   after next: owed = true
+//@   after next: seq = k
+//@   after call sendChunkAndWaitAck: owed = false
+//@   assert call sendChunkAndWaitAck: arg2 != nil && arg2.StreamChunk != nil && arg2.StreamChunk.SequenceNumber == seq && arg2.StreamIDAlias == u.idAlias && has(u.upstreamChunkResultChs, seq) && u.upstreamChunkResultChs[seq] == arg3
+//@   loop 1 invariant !owed
+
+// resume asks for the original stream id; on success the stream is marked connected again
+//@ func (*Upstream).resume
+//@   props C02
+//@   ghostvar connected bool = false
+//@   after call streamState).Swap: connected = (arg1 == streamStatusConnected)
+//@   ensures imp(result == nil, connected)
+//@ func (*Upstream).resume$1
+//@   props C02
+//@   assert call SendUpstreamResumeRequest: arg2 != nil && arg2.StreamID == u.ID
